@@ -460,6 +460,44 @@ pub fn check_case(case: &Case) -> CaseResult {
         }
     }
     let texts: Vec<String> = texts.into_iter().map(|t| t.unwrap()).collect();
+    // the same *place* holding another range afterwards (mem::swap, re-assignment of a
+    // slot): the text follows the contents, not the address
+    if repeat_problem.is_none() {
+        let mut built2: Vec<HandRange> = built.clone();
+        let n = built2.len();
+        for i in 0..n {
+            let j = (i + 1) % n;
+            if i == j {
+                continue;
+            }
+            let r = crate::evalrun::guarded(|| {
+                let _ = built2[i].to_string();
+                built2.swap(i, j);
+                let a = built2[i].to_string();
+                let mut slot = built2[j].clone();
+                let _ = slot.to_string();
+                slot = built2[i].clone();
+                let b = slot.to_string();
+                built2.swap(i, j);
+                (a, b)
+            });
+            match r {
+                Ok((a, b)) => {
+                    if a != texts[j] || b != texts[j] {
+                        repeat_problem = Some(format!(
+                            "after history #{i} was formatted, the range of history #{j} moved into its place (mem::swap / slot re-assignment) prints '{}' / '{}' instead of '{}'",
+                            abbreviate(&a), abbreviate(&b), abbreviate(&texts[j])
+                        ));
+                        break;
+                    }
+                }
+                Err(m) => {
+                    repeat_problem = Some(format!("formatting after a swap panicked: {m}"));
+                    break;
+                }
+            }
+        }
+    }
     if let Some(d) = repeat_problem {
         res.key = Some(("same_object_formats_differently".into(), d));
         res.texts = texts;
